@@ -118,6 +118,7 @@ def accepted_language(src, f, rep):
     not, participation of a group, a content predicate on a group -- and becomes a marked language; the
     accepted strings are those of the non-raising paths"""
     fnode, _inl = normalize.inline_helpers(f)
+    fnode = normalize.split_group_unpacking(fnode)
     fnode = normalize.unroll_const_loops(fnode, paths.module_consts(f.module, f.cls or ''))      # loops over constant name tables, setattr(self, '<name>', v) as a store
     fnode = normalize.expand_quantifiers(fnode, f.module, table_nodes=normalize.class_table_nodes(f.module, f.cls or ''))     # tests over a table of rules
     r, mode, mcall = find_match_expr(src, f, fnode)
